@@ -104,7 +104,13 @@ pub(crate) fn reverse_indexes<const D: usize>(
             let last_index = length - 1;
             let index = indexes[d];
             // swap dimension indexing, so 0 becomes length-1, and length-1 becomes 0
-            last_index - index
+            if index > last_index {
+                // an out of bounds index stays out of bounds (and is rejected by the source
+                // for the checked accessors) instead of underflowing
+                index
+            } else {
+                last_index - index
+            }
         } else {
             indexes[d]
         }
